@@ -20,24 +20,31 @@ META = {
              'the tokenizer is an oracle (universally quantified); select_nth_unstable_by through its documented contract '
              '(premise); score values are not modelled (integer total_cmp key + NaN flag supplied by the harness; '
              'finiteness and sign are checked on the implementation only). Bucket layout/sizes and CBOR are abstracted '
-             '(payload oracle); concurrency (mutations vs compaction) is PARTIAL: the gate sides are a generated fact and '
-             'a small threaded stress is not a proof.'),
+             '(payload oracle; the final bucket of a newly placed token is an oracle read off verif_dump). The bucket-level '
+             'statement of reload_same_answers is PARTIAL: proved are the per-mutation dirtying lemmas; the history-level '
+             'part is tied by per-step comparison with the implementation and by the live = reloaded oracle. Concurrency '
+             '(mutations vs compaction) is PARTIAL: the gate sides are a generated fact and a threaded stress is not a proof. '
+             'Hook: BM25Index::verif_dump (cfg anda_verif, read-only).'),
     'technique': 'Coq proof (structural induction on query trees, history invariants, sorted-permutation uniqueness, '
                  'commit-point refinement) + translator-generated facts + differential model/impl run + certified monitor',
 }
 
-IMPORTS = 'From Verif Require Import Bm25.Model Bm25.Run.'
+IMPORTS = 'From Verif Require Import Bm25.Model Bm25.BModel Bm25.Run.'
 IMPORTS_FLUSH = 'From Verif Require Import Bm25.Persist Bm25.RunFlush.'
 
 
 def run(ck):
     quick = ck.tier == 'quick'
-    ck.rule = ('histories of 6..36 (quick) / 6..60 (thorough) operations over ids 1..8 and a 12-word vocabulary (+ a '
-               '1-byte noise word, empty words): insert, re-insert, remove with original text, remove with non-original '
-               'text (every third history), remove of absent ids, purge_ids, compact_buckets, flush, flush+load, tiny '
-               'bucket_overload_size; after each: search() with 1..3 words and search_advanced() on query trees of depth '
-               '<= 3 (AND/OR/NOT incl. all-NOT conjunctions, double negation) with 8 BM25Params incl. NaN/inf/negative, '
-               'every k in 0..n+1; every crash prefix of every flush loaded with load_all; 8 (quick) / 200 (thorough) stress rounds of 3 mutator threads against a compaction loop (partial: a stress, not an exploration); non-trivial = a distinct '
+    ck.rule = ('histories of 6..30 (quick) / 6..60 (thorough) operations over ids 1..8 and a 12-word vocabulary (+ a '
+               '1-byte noise word, empty words): insert, re-insert (often with the text the id had before), remove with '
+               'original text, remove with non-original text, remove of absent ids, purge_ids, compact_buckets, flush, '
+               'flush+load, tiny bucket_overload_size; every fourth history starts with the insert / remove-with-wrong-text / '
+               're-insert family on one id with a flush or flush+load between every pair of operations; after each '
+               'mutation the bucket bookkeeping (verif_dump) is compared with the bucket-level model; search() with 1..3 '
+               'words and search_advanced() on query trees of depth <= 3 with 8 BM25Params incl. NaN/inf/negative, every k '
+               'in 0..n+1; at every flush: every crash prefix loaded with load_all, and live answers = answers after the '
+               'completed flush (+ every prefix of the obsolete deletions); 6 (quick) / 200 (thorough) stress rounds of 3 '
+               'mutator threads against a compaction loop (partial: a stress, not an exploration); non-trivial = a distinct '
                'history in which some query returned >= 2 documents')
     ck.translate()
     ck.coq(['Bm25/Props.v'], ['Bm25', 'Common', 'gen'], model_targets=['Bm25/Run.vo', 'Bm25/RunFlush.vo'])
@@ -51,8 +58,8 @@ def run(ck):
     binary = ck.cargo('h_bm25')
     if binary:
         out = ck.work + '/c11.jsonl'
-        args = ['c11', '--out', out] + (['--histories', '260', '--max-ops', '36', '--stress', '8'] if quick
-                                        else ['--histories', '3000', '--max-ops', '60', '--stress', '200'])
+        args = ['c11', '--out', out] + (['--histories', '200', '--max-ops', '30', '--stress', '6'] if quick
+                                        else ['--histories', '1500', '--max-ops', '60', '--stress', '200'])
         rc, text = ck.run_harness(binary, args, timeout=3000)
         ok = ck.ob('harness c11 ran', rc == 0 and os.path.exists(out), 'correspondence', text[-2000:])
         if ok:
@@ -93,8 +100,9 @@ def run(ck):
                 i = bad[0]
                 where = ck.eval_term(IMPORTS, 'first_bad ' + to_coq(cases[i]))
                 detail = 'history %d: %s\nfirst disagreeing step: %s' % (i, json.dumps(model_rows[i]['history'])[:2500], where[-300:])
-            ck.ob('model = implementation on %d histories (insert/remove/purge results, doc_tokens, total_tokens, '
-                  'result sets, ranking, top-k)' % len(cases), not bad, 'correspondence', detail)
+            ck.ob('bucket-level model = implementation on %d histories (results of insert/remove/purge, per-bucket dirty flag / '
+                  'listed tokens / doc_ids / token owners after every mutation, buckets rewritten by every flush, state after '
+                  'every flush+load, doc_tokens, total_tokens, result sets, ranking, top-k) and = whole-index model' % len(cases), not bad, 'correspondence', detail)
             # certified monitor over the recorded flush write logs
             fcases = [r['case'] for r in flush_rows]
             if fcases:
